@@ -270,6 +270,51 @@ for f in formats:
         open(path, 'w').write(new)
     all_tables.append(f['name'])
 
+# ---- new API: public functions that did not exist when the drivers were written (not in bindings/baseline_api.txt).
+# Those that take no pointer at all (mode switches, option setters, queries) can be called without knowing any precondition:
+# they get a thunk each and are exercised by the re-entrancy engine. The others are only reported.
+import glob as _glob
+base_path = os.path.join(os.path.dirname(os.path.abspath(__file__)), '..', 'bindings', 'baseline_api.txt')
+baseline = set(l.strip() for l in open(base_path) if l.strip() and not l.startswith('#')) if os.path.exists(base_path) else None
+extra_rows, extra_code, extra_hdrs, new_uncallable = [], [], [], []
+INT_TYPES = set(TYPE_BITS) | {'size_t', 'long', 'short'}
+if baseline is not None:
+    for hp in sorted(_glob.glob(os.path.join(inc, '**', '*.h'), recursive=True)):
+        rel = os.path.relpath(hp, inc)
+        code = re.sub(r'/\*.*?\*/', ' ', open(hp).read(), flags=re.S)
+        code = re.sub(r'//[^\n]*', ' ', code)
+        for m in re.finditer(r'^\s*([A-Za-z_][\w\s]*?[\w\*])\s*\**\s*\b((?:Avtp|avtp)_\w+)\s*\(([^;{}()]*?)\)\s*(?:[A-Za-z_]\w*\s*(?:\(\([^;{}]*?\)\))?\s*)*[;{]', code, re.M | re.S):
+            ret, name, args = m.group(1).strip(), m.group(2), ' '.join(m.group(3).split())
+            if name in baseline or any(name == r[0] for r in extra_rows) or name in new_uncallable:
+                continue
+            params = [a.strip() for a in args.split(',')] if args.strip() and args.strip() != 'void' else []
+            ptr = any('*' in a or '[' in a for a in params) or bool(re.search(r'\*\s*' + re.escape(name), m.group(0)))
+            scalar = all((a.replace('const', ' ').split() or ['int'])[0] in INT_TYPES or a.split()[0].endswith('_t') for a in params)
+            if not ptr and scalar and len(params) <= 4 and 'struct' not in args:
+                k = len(extra_rows)
+                call = '%s(%s)' % (name, ', '.join('(%s)%s' % (a.rsplit(' ', 1)[0] if ' ' in a else a, 'abcd'[i]) for i, a in enumerate(params)))
+                body = ('%s; return 0;' % call) if ret.split()[-1] == 'void' and '*' not in ret else 'return (uint64_t)%s;' % call
+                extra_code.append('static uint64_t e_%d(uint64_t a, uint64_t b, uint64_t c, uint64_t d) { (void)a; (void)b; (void)c; (void)d; %s }' % (k, body))
+                extra_rows.append((name, 'e_%d' % k, len(params)))
+                if rel not in extra_hdrs:
+                    extra_hdrs.append(rel)
+            else:
+                new_uncallable.append(name)
+for n in new_uncallable:
+    warnings.append('new API: %s takes pointers or structures: no call is generated for it (NOT EXERCISED)' % n)
+ec = ['/* generated by tools/gen_bindings.py: pointer-free public functions that are not part of the baseline API */', '#include <stdint.h>', '#include <stddef.h>']
+ec += ['#include "%s"' % h for h in extra_hdrs]
+ec += ['#include "bind.h"'] + extra_code
+ec.append('const BindExtra bind_extras[] = {')
+ec += ['  {"%s", %s, %d},' % r for r in extra_rows]
+ec.append('  {NULL, NULL, 0}\n};')
+ec.append('const unsigned bind_nextras = %d;' % len(extra_rows))
+ec.append('const char *const bind_new_uncallable[] = {%s NULL};' % ''.join('"%s", ' % n for n in new_uncallable))
+path = os.path.join(out, 'bind_extra.c')
+new = '\n'.join(ec) + '\n'
+if not os.path.exists(path) or open(path).read() != new:
+    open(path, 'w').write(new)
+
 c = ['/* generated */', '#include "bind.h"']
 for n in all_tables:
     c.append('extern const BindFormat bind_%s;' % n)
